@@ -35,6 +35,7 @@ Next == \E n \in PoolAt(Len(prog) + 1) : Add(n)
 Spec == Init /\ [][Next]_prog
 
 AnnPartials == [i \in DOMAIN Partials |-> <<Partials[i][1], AnnotTemplate(Partials[i][2])>>]
+Tpls(p) == <<<<"main", AnnotTemplate(p)>>>> \o AnnPartials
 Expect(d, c) == Render(<<<<"main", AnnotTemplate(prog)>>>> \o AnnPartials, "main", d, c)
 
 Record(d, c) ==
@@ -90,6 +91,25 @@ PolicyIrrelevantWithoutTouch ==
      tch.err # "UndefinedError" =>
         \A pol \in {"default", "strict", "falsy"} : Expect(d, [c EXCEPT !.undef = pol]) = tch
 
+\* C06: the unlimited render with its consumption measures
+ExportMeasures ==
+  prog # <<>> =>
+    \A i \in DOMAIN Combos :
+       LET m == Measure(Tpls(prog), "main", Combos[i][1], Combos[i][2]) IN
+       IF m.err = "UNSPEC" THEN TRUE
+       ELSE Emit(ToJson([focus |-> Focus, main |-> "main",
+               templates |-> <<<<"main", Src(prog)>>>> \o [j \in DOMAIN Partials |-> <<Partials[j][1], Src(Partials[j][2])>>],
+               data |-> Combos[i][1], cfg |-> Combos[i][2],
+               expect |-> [ok |-> (m.err = ""), err |-> m.err, out |-> m.out],
+               measures |-> [outbytes |-> m.outbytes, peak |-> m.peak, prod |-> m.prod, iters |-> m.iters]]) \o "\n")
+
+\* sanity of the measures on the reference: what is returned never exceeds the peak of
+\* the buffer chain, and no loop body runs more often than the product of the lengths
+MeasuresConsistent ==
+  \A d \in DataSets, c \in Cfgs :
+     LET m == Measure(Tpls(prog), "main", d, c) IN
+     (prog # <<>> /\ m.err = "") => (m.outbytes <= m.peak /\ m.iters <= m.prod)
+
 \* inputs only (no expectation is computed)
 ExportInputs ==
   prog # <<>> =>
@@ -123,7 +143,6 @@ WsOnly == \A d \in DataSets, c \in Cfgs :
 \* C07 on the reference: a top-level `render` (isolated partial) contributes exactly
 \* the text it produces when rendered alone with the same globals, and whatever
 \* it does leaves the rest of the caller's output unchanged.
-Tpls(p) == <<<<"main", AnnotTemplate(p)>>>> \o AnnPartials
 Without(p, i) == SubSeq(p, 1, i - 1) \o SubSeq(p, i + 1, Len(p))
 RenderIsolated ==
   \A d \in DataSets, c \in Cfgs : \A i \in DOMAIN prog :
